@@ -500,7 +500,7 @@ fn parse_rel(s: &str) -> RelMap {
 /// refusal; `insert_array` refuses all of a document's keys at once), resp. a vector of another dimension.
 fn is_f_c02_2(key: &str, expected: &str, observed: &str, tainted: &HashMap<String, usize>, refused: &mut HashMap<String, BTreeSet<u64>>, docs: &BTreeMap<u64, ADoc>) -> bool {
     let parts: Vec<&str> = key.split(':').collect();
-    match parts.as_slice() {
+    (match parts.as_slice() {
         ["bt", name, "hole"] if tainted.contains_key(*name) => {
             let (exp, obs) = (parse_rel(expected), parse_rel(observed));
             let mut missing: BTreeMap<u64, Vec<String>> = BTreeMap::new();
@@ -521,7 +521,33 @@ fn is_f_c02_2(key: &str, expected: &str, observed: &str, tainted: &HashMap<Strin
             None => false,
         },
         _ => false,
-    }
+    }) || dropped_after_refusal(&parts, expected, observed, refused)
+}
+
+/// Second-order shape of the same finding: a document that an index created in a post-crash open callback
+/// refuses is live but un-indexable there; when an intent replay later re-indexes it,
+/// `insert_document_into_indexes` ends at that refusal and the document is missing from every LATER index too.
+/// Accepted only when every document with a missing entry is one already known to be refused by such an index.
+fn dropped_after_refusal(parts: &[&str], expected: &str, observed: &str, refused: &HashMap<String, BTreeSet<u64>>) -> bool {
+    let known: BTreeSet<u64> = refused.values().flatten().copied().collect();
+    if known.is_empty() { return false; }
+    let ids = |s: &str| -> BTreeSet<u64> { s.split(',').filter_map(|i| i.parse().ok()).collect() };
+    let missing: Option<BTreeSet<u64>> = match parts {
+        ["bt", _, "hole"] | ["tx", _, "hole"] => {
+            let (exp, obs) = (parse_rel(expected), parse_rel(observed));
+            let mut m = BTreeSet::new();
+            for (k, is) in &exp { for id in is { if !obs.get(k).is_some_and(|o| o.contains(id)) { m.insert(*id); } } }
+            Some(m)
+        }
+        ["hn", "hole"] => Some(ids(expected).difference(&ids(observed)).copied().collect()),
+        ["filter", _, _] if ids(observed).is_subset(&ids(expected)) => Some(ids(expected).difference(&ids(observed)).copied().collect()),
+        ["tx", _, "count"] | ["hn", "count"] => {
+            let (e, o) = (expected.parse::<u64>().unwrap_or(0), observed.parse::<u64>().unwrap_or(u64::MAX));
+            return o < e && e - o <= known.len() as u64;
+        }
+        _ => None,
+    };
+    missing.is_some_and(|m| !m.is_empty() && m.is_subset(&known))
 }
 
 pub fn doc_from_line(fvs: &[(usize, Val)]) -> Option<Doc> {
